@@ -13,12 +13,15 @@ import (
 
 	"github.com/els0r/goProbe/v4/cmd/goProbe/config"
 	"github.com/els0r/goProbe/v4/pkg/capture"
+	"github.com/els0r/goProbe/v4/pkg/capture/capturetypes"
 	"github.com/els0r/goProbe/v4/pkg/goDB/encoder/encoders"
 	"github.com/els0r/goProbe/v4/pkg/goDB/engine"
 	"github.com/els0r/goProbe/v4/pkg/goprobe/writeout"
 	"github.com/els0r/goProbe/v4/pkg/query"
 	"github.com/els0r/goProbe/v4/pkg/results"
 	"github.com/els0r/goProbe/v4/pkg/types"
+
+	slimcap "github.com/fako1024/slimcap/capture"
 
 	"verifmc/explore"
 	"verifmc/fixture"
@@ -151,6 +154,7 @@ const c29T0 = int64(1700000100) // first write-out; +300 s each
 type c29World struct {
 	x      *explore.Ctx
 	first  bool // scenario C29.first: judge live queries on an interface the database does not know yet
+	diff   bool // scenario C29.idle: conversations whose stored orientation depends on the history; only the differential oracle B applies
 	dbPath string
 	src    *fakeSource
 	mgr    *capture.Manager
@@ -160,7 +164,7 @@ type c29World struct {
 }
 
 func c29NewWorld(x *explore.Ctx, first bool) *c29World {
-	w := &c29World{x: x, first: first, dbPath: fixture.NewDir(), src: &fakeSource{auto: true}}
+	w := &c29World{x: x, first: first, diff: c29DiffOnly, dbPath: fixture.NewDir(), src: &fakeSource{auto: true}}
 	w.mgr = capture.NewManager(writeout.NewGoDBHandler(w.dbPath, encoders.EncoderTypeLZ4),
 		capture.WithSourceInitFn(func(*capture.Capture) (capture.Source, error) { return w.src, nil }))
 	if _, _, _, err := w.mgr.Update(context.Background(), &config.Config{Interfaces: config.Ifaces{c29Iface: config.DefaultCaptureConfig()}}); err != nil {
@@ -279,7 +283,7 @@ func c29Play(x *explore.Ctx, first bool, ops []string, spec *c29Spec, ask func(p
 		if ops[pos] == "R" {
 			w.rotate()
 		} else {
-			w.packet(mcAlphabet[ops[pos]])
+			w.packet(c29Pkt(ops[pos]))
 		}
 	}
 	if !x.Failed() {
@@ -293,9 +297,48 @@ func c29Play(x *explore.Ctx, first bool, ops []string, spec *c29Spec, ask func(p
 	return final, w
 }
 
+// c29Extra: conversations whose orientation cannot be derived from every packet alone (equal ports;
+// two unprivileged ports with the handshake seen only at the start). What is stored for them depends
+// on whether the flow is still known when a later packet arrives.
+var c29Extra = func() map[string]mcPkt {
+	const in, out = slimcap.PacketThisHost, slimcap.PacketOutgoing
+	m := map[string]mcPkt{}
+	add := func(p mcPkt) { m[p.name] = p }
+	add(mcBuild("n1", "10.0.0.5", "10.0.0.6", 123, 123, capturetypes.UDP, 0, in, 76, "10.0.0.5", "10.0.0.6", 123))
+	add(mcBuild("n2", "10.0.0.6", "10.0.0.5", 123, 123, capturetypes.UDP, 0, out, 76, "10.0.0.5", "10.0.0.6", 123))
+	add(mcBuild("t1", "10.0.0.7", "10.0.0.8", 40000, 50000, capturetypes.TCP, 0x02, in, 60, "10.0.0.7", "10.0.0.8", 50000))
+	add(mcBuild("t2", "10.0.0.8", "10.0.0.7", 50000, 40000, capturetypes.TCP, 0x10, out, 1400, "10.0.0.7", "10.0.0.8", 50000))
+	add(mcBuild("t3", "10.0.0.7", "10.0.0.8", 40000, 50000, capturetypes.TCP, 0x10, in, 52, "10.0.0.7", "10.0.0.8", 50000))
+	return m
+}()
+
+func c29Pkt(name string) mcPkt {
+	if p, ok := c29Extra[name]; ok {
+		return p
+	}
+	p, ok := mcAlphabet[name]
+	if !ok {
+		explore.HarnessErrorf("unknown packet %q", name)
+	}
+	return p
+}
+
 func c29Live(x *explore.Ctx, w *c29World, spec *c29Spec, pos int, ops []string) {
 	res, err := w.run(spec.qtype, spec.cond.text, true)
 	x.Transition()
+	if w.diff {
+		if len(w.mem) > 0 || len(w.stored) > 0 {
+			x.Nontrivial("%d %v %q", pos, ops, spec.cond.text)
+		}
+		if err != nil {
+			if _, serr := os.Stat(w.dbPath + "/" + c29Iface); serr == nil {
+				x.Fail("live-query-failed:idle", "live query %q cond %q at position %d of %v fails: %v", spec.qtype, spec.cond.text, pos, ops, err)
+			}
+			return
+		}
+		x.Obs("%d rows", len(res.Rows))
+		return
+	}
 	where := fmt.Sprintf("live query %q cond %q at position %d of [%s] (%d block(s) stored, %d packet(s) in memory)", spec.qtype, spec.cond.text, pos, strings.Join(ops, " "), len(w.stored), len(w.mem))
 	// reference: stored blocks plus one pseudo block holding the in-memory flows
 	db := fixture.DB{Blocks: append(append([]fixture.Block(nil), w.stored...), fixture.Block{Iface: c29Iface, TS: c29T0 + 300*int64(w.nWrite), Recs: w.mem})}
@@ -359,14 +402,38 @@ func c29Rows(m map[fixture.RowKey]types.Counters) string {
 // C29.first: live queries before the interface's first write-out.
 func c29FirstSchedules(string) []string { return []string{"a4", "a4 b6", "b6 d6 e4"} }
 
-func c29Run(x *explore.Ctx)      { c29RunWith(x, c29Schedules(x.Tier), false) }
+func c29Run(x *explore.Ctx) { c29RunWith(x, c29Schedules(x.Tier), false) }
+
+// c29DiffOnly is set for the duration of a C29.idle execution.
+var c29DiffOnly bool
+
+func c29IdleSchedules(tier string) []string {
+	s := []string{"n1 R n2", "n1 R R n2", "n1 n2 R n2 R n1", "t1 R t2 t3", "t1 t2 R t3 R t2", "n1 t1 R n2 t2"}
+	if tier == "thorough" {
+		s = append(s, "n1 t1 R n2 t2 R n1", "t1 R R t2 R t3", "n2 R n1 R n2", "t1 t3 R t2 R t2 R", "a4 n1 R c4 n2 R")
+	}
+	return s
+}
+
+func c29IdleSpecs(string) []c29Spec {
+	return []c29Spec{{c29QTypes[0].name, c29QTypes[0].attrs, c08Conds[0]}, {c29QTypes[1].name, c29QTypes[1].attrs, c08Conds[8]}}
+}
+
+func c29IdleRun(x *explore.Ctx) {
+	c29DiffOnly = true
+	defer func() { c29DiffOnly = false }()
+	c29RunWithSpecs(x, c29IdleSchedules(x.Tier), c29IdleSpecs(x.Tier), false)
+}
 func c29FirstRun(x *explore.Ctx) { c29RunWith(x, c29FirstSchedules(x.Tier), true) }
 
 func c29RunWith(x *explore.Ctx, scheds []string, first bool) {
+	c29RunWithSpecs(x, scheds, c29Specs(x.Tier), first)
+}
+
+func c29RunWithSpecs(x *explore.Ctx, scheds []string, specs []c29Spec, first bool) {
 	// the case index also fixes whether positions 0 and 1 carry a live query (keeps cases small)
 	pre := x.Case % 4
 	ci := x.Case / 4
-	specs := c29Specs(x.Tier)
 	sched := scheds[ci/len(specs)]
 	ops := strings.Fields(sched)
 	spec := specs[ci%len(specs)]
@@ -418,6 +485,9 @@ func c29RunWith(x *explore.Ctx, scheds []string, first bool) {
 		x.Fail("db-differs-after-live-queries", "schedule [%s] with %d live queries (%q cond %q): database differs from the run without live queries: %s", strings.Join(ops, " "), asked, spec.qtype, spec.cond.text, d)
 		return
 	}
+	if c29DiffOnly {
+		return
+	}
 	if d := fixture.DiffRows(final, ref); d != "" {
 		x.Fail("db-differs-from-reference", "schedule [%s] with %d live queries: database differs from the delivered packets per interval: %s", strings.Join(ops, " "), asked, d)
 	}
@@ -430,12 +500,20 @@ func c29Setup(t string) {
 }
 
 func init() {
+	register("C29.idle", &explore.Scenario{
+		ID: "C29", Name: "live queries while flows are idle: conversations whose stored orientation depends on the flow still being known", Level: "exploration",
+		Rule:  "cases = schedules over the conversations NTP 123<->123 (n1 request / n2 reply) and TCP 40000->50000 (t1 SYN / t2, t3 later segments) with write-outs (R) between their packets {n1 R n2 | n1 R R n2 | n1 n2 R n2 R n1 | t1 R t2 t3 | t1 t2 R t3 R t2 | n1 t1 R n2 t2 (thorough 5 more)} x 2 query specs; EVERY subset of the schedule's positions carries a live query through the real QueryRunner with WithLiveData; after a closing write-out the database (raw query with time) must equal the database of the same schedule without any live query (differential oracle only: what is stored for these conversations depends on the history). non-trivial = live queries answered while flows were stored or in memory",
+		Cases: func(t string) int { return len(c29IdleSchedules(t)) * len(c29IdleSpecs(t)) * 4 },
+		Bound: func(string) int { return 0 },
+		Run:   c29IdleRun, Setup: c29Setup, PanicSig: "panic",
+		Assumptions: []string{"as C29"},
+	})
 	register("C29.first", &explore.Scenario{
 		ID: "C29", Name: "live queries before the interface's first write-out", Level: "model_checking",
 		Rule:  "cases = schedules {a4 | a4 b6 | b6 d6 e4} without a write-out x the query specs of C29; every subset of positions carries a live query; a query over flows that exist in memory must not fail and must return the reference rows; non-trivial = live queries with flows in memory",
 		Cases: func(t string) int { return len(c29FirstSchedules(t)) * len(c29Specs(t)) * 4 },
 		Bound: func(string) int { return 0 },
-		Run:   c29FirstRun, Setup: c29Setup,
+		Run:   c29FirstRun, Setup: c29Setup, PanicSig: "panic",
 		Assumptions: []string{"as C29; the database directory is empty until the closing write-out"},
 	})
 	register("C29", &explore.Scenario{
@@ -443,7 +521,7 @@ func init() {
 		Rule:  "cases = schedule x query spec. Schedules: <=4 packets (mixed IPv4/IPv6 alphabet of C21; a4/c4 are the two directions of one conversation) and <=2 write-outs (quick: 8 hand-picked; thorough: every placement of 0-2 write-outs into every prefix of one packet sequence and into a second full sequence, 73 schedules). Query specs: attribute set {sip,dip,dport,proto | sip,dip} x conditions {none, sip=, dip=, snet=, dnet=, snet|sip, snet&dip, dnet|dnet (thorough also proto=, sip|sip v4/v6, !dnet, dport|dip)}, thorough also {dport,proto | sip} x {none, snet=}. Per case EVERY subset of the schedule's positions (before each step and at the end) carries a live query through the real QueryRunner with WithLiveData; rows are compared with a Go-map aggregation of stored blocks + in-memory flows under the condition's reference predicate; after a closing write-out a raw+time query over the database must equal the run without live queries and the reference blocks; non-trivial = live queries answered while flows were in memory, distinct by (stored/memory class, query, counts, condition)",
 		Cases: func(t string) int { return len(c29Schedules(t)) * len(c29Specs(t)) * 4 },
 		Bound: func(string) int { return 0 },
-		Run:   c29Run, Setup: c29Setup,
+		Run:   c29Run, Setup: c29Setup, PanicSig: "panic",
 		Assumptions: []string{
 			"a live query that fails because the interface has no directory in the database yet is judged by scenario C29.first only; C29 continues the schedule after it",
 			"one interface; live queries run between arrivals (arrival during a query's pause is C21's subject)",
